@@ -64,8 +64,8 @@ _PATH_FUNCS = {"os.path.abspath", "os.path.join", "os.path.dirname", "os.path.re
                "os.path.basename"}
 _BINDERS_REFUSED = (ast.FunctionDef, ast.AsyncFunctionDef, ast.ClassDef, ast.Lambda, ast.ListComp, ast.SetComp,
                     ast.DictComp, ast.GeneratorExp, ast.Global, ast.Nonlocal, ast.NamedExpr, ast.Import,
-                    ast.ImportFrom, ast.With, ast.AsyncWith, ast.Try, ast.Delete, ast.Starred, ast.AsyncFor,
-                    ast.Match if hasattr(ast, "Match") else ast.Try)
+                    ast.ImportFrom, ast.With, ast.AsyncWith, ast.Starred, ast.AsyncFor,
+                    ast.Match if hasattr(ast, "Match") else ast.AsyncFor)
 
 
 # ------------------------------------------------------------------ strip (S)
@@ -170,7 +170,16 @@ def _body_nodes(fn):
 
 def simple_scope(fn):
     """only assignments and for-targets bind names: then `locals_in_order` sees every local"""
-    return not any(isinstance(n, _BINDERS_REFUSED) for n in _body_nodes(fn))
+    for n in _body_nodes(fn):
+        if isinstance(n, _BINDERS_REFUSED):
+            return False
+        if isinstance(n, ast.ExceptHandler) and n.name is not None:       # `except X as e` binds e
+            return False
+        if isinstance(n, ast.Delete) and not all(isinstance(t, (ast.Subscript, ast.Attribute)) for t in n.targets):
+            return False                                                   # `del x` unbinds a name
+        if hasattr(ast, "TryStar") and isinstance(n, ast.TryStar):
+            return False
+    return True
 
 
 class _Order(ast.NodeVisitor):
@@ -542,6 +551,12 @@ class _Stmts:
         if isinstance(s, (ast.If, ast.For, ast.While)):
             s.body = self.block(s.body, loop_body=isinstance(s, (ast.For, ast.While)))
             s.orelse = self.block(s.orelse) if s.orelse else []
+        if isinstance(s, ast.Try):        # every block of a try statement on its own: no rule crosses its boundary
+            s.body = self.block(s.body)
+            for h in s.handlers:
+                h.body = self.block(h.body)
+            s.orelse = self.block(s.orelse) if s.orelse else []
+            s.finalbody = self.block(s.finalbody) if s.finalbody else []
         s = _ExprRules(env).visit(s)
         if isinstance(s, ast.If):
             # pass: an else branch that holds only `pass` is no else branch
